@@ -181,7 +181,21 @@ def run(ctx, rep):
     rep.check("C08.c", "write_data/advance", okw, where=WD.loc(), what="write_data advances self.size by the number of bytes appended (R-ACCUM)")
     # ---- C08.d -------------------------------------------------------------------------------------
     AN = prog.find1(r"^rustic_core::blob::packer::Actor::new$")
-    cls = prog.closures_of(AN)
+    cls = list(prog.closures_of(AN))
+    # ... or a named fn handed to the pipeline as a value (`.map(Self::with_pack_id)`)
+    for f_ in [AN] + list(cls):
+        for blk in f_.blocks:
+            ops = []
+            for s_ in blk["s"]:
+                if s_[0] == "=" and s_[2][0] == "use":
+                    ops.append(s_[2][1])
+            if blk["t"]["k"] == "call":
+                ops += blk["t"]["args"]
+            for o in ops:
+                if o[0] == "k" and "fn" in o[1]:
+                    pth = (o[1]["fn"].get("resolved") or {}).get("path") or o[1]["fn"]["callee"]
+                    if pth.startswith("rustic_core::blob::packer::") and pth in prog.bodies and prog.bodies[pth] not in cls:
+                        cls.append(prog.bodies[pth])
     hr = [(c, bb, t) for c in cls for bb, t in c.calls() if "callee" in t and callee(t).endswith("crypto::hasher::hash_reader")]
     okd = False
     if len(hr) == 1:
@@ -189,18 +203,19 @@ def run(ctx, rep):
         sl = flow.backward_slice(c, op_place(t["args"][0]))
         # hashed reader derives from (a clone of) the closure's item parameter; the tuple returned carries the same item
         ret = flow.backward_slice(c, [0])
-        okd = 2 in sl["args"] and 2 in ret["args"] and bb in ret["call_sites"] and any(x.endswith("Clone>::clone") or x.endswith("BytesList::reader") for x in sl["calls"])
+        ITEM = 2 if c.is_closure() else 1      # a closure's first parameter is its environment
+        okd = ITEM in sl["args"] and ITEM in ret["args"] and bb in ret["call_sites"] and any(x.endswith("Clone>::clone") or x.endswith("BytesList::reader") for x in sl["calls"])
         # component-precise: the reader hashed is built from the FILE component of the item (a BytesList), nothing else
 
         def arg_components(e, acc):
             if isinstance(e, (tuple, list)):
-                if len(e) >= 3 and e[0] == "path" and e[1] == ("arg", 2):
+                if len(e) >= 3 and e[0] == "path" and e[1] == ("arg", ITEM):
                     acc.add(e[2][0] if e[2] else "*")
                 for y in e:
                     arg_components(y, acc)
             return acc
         comps = arg_components(flow.expr_of(c, t["args"][0]), set())
-        tys = c.locals[2] if len(c.locals) > 2 else ""
+        tys = c.locals[ITEM] if len(c.locals) > ITEM else ""
         m = re.match(r"^\((.*)\)$", tys)
         first_is_file = bool(m) and m.group(1).split(",")[0].strip().endswith("BytesList")
         okd = okd and comps == {"0"} and first_is_file
